@@ -2,7 +2,7 @@
 from __future__ import annotations
 import re
 import z3
-from .types import T, INT, BOOL, STR, CPS, TOpt, TSeq, V, VNone, VPy, VObj, const_value
+from .types import z3_string_value, T, INT, BOOL, STR, CPS, TOpt, TSeq, V, VNone, VPy, VObj, const_value
 from .sym import Unsupported, fresh_name
 from . import regexc
 
@@ -187,7 +187,7 @@ def install(world):
                 if isinstance(g, VPy):
                     gv = g.obj
                 elif isinstance(g, V) and z3.is_string_value(g.term):
-                    gv = g.term.as_string()
+                    gv = z3_string_value(g.term)
                 elif isinstance(g, V) and z3.is_int_value(z3.simplify(g.term)):
                     gv = z3.simplify(g.term).as_long()
                 else:
